@@ -71,6 +71,7 @@ def run(ctx):
         "equivalences on the clean domain; writer/reader field layouts of "
         "the fixed-width codecs.")
     _parse_model(ctx)
+    _parse_pure(ctx)
     _emit_model(ctx)
     _registry_names(ctx)
     _codec(ctx)
@@ -100,6 +101,15 @@ def _parse_model(ctx):
               "every decoded value added under its parsed name, in order",
               "comma-separated FREEBUSY values each decoded",
               "multiple=True returns all top-level components, else the only one"))
+
+
+def _parse_pure(ctx):
+    """What the parser does with a finished VTIMEZONE (building a time zone
+    object from it) must leave the component it returns unchanged (E7)."""
+    from .. import treemodel
+    f = ctx.model.func("timezone.zoneinfo.ZONEINFO.create_timezone")
+    treemodel.report(ctx, "C01/PARSE-PURE", treemodel.explore_create_timezone,
+                     "time zone construction leaves the parsed VTIMEZONE unchanged", f.loc(), 2)
 
 
 def _emit_model(ctx):
